@@ -144,7 +144,7 @@ func cmdCheck(args []string) int {
 		fmt.Println("TOOL-ERROR bad config:", err)
 		return 2
 	}
-	to := 20
+	to := 30
 	if *tier == "thorough" {
 		to = 120
 	}
